@@ -39,10 +39,17 @@ def gen_cases(tier, seed):
         maxchain = 0
         for j in range(nl):
             cls = r.choice(["file-rel", "file-abs", "file-out", "dir-in", "dir-out", "dir-out-abs", "chain", "chain", "dangling", "cycle", "deep-link",
-                            "dir-otherfs", "file-otherfs", "chain-otherfs", "same-name", "same-name", "into-dest", "deep-dir-out"])
+                            "dir-otherfs", "file-otherfs", "chain-otherfs", "same-name", "same-name", "into-dest", "deep-dir-out", "same-text", "same-text"])
             nm = "src/L%d" % j if r.random() < 0.6 else "src/sub/L%d" % j
             up = "" if nm.count("/") == 1 else "../"
-            if cls == "file-rel":
+            if cls == "same-text":
+                # links in different directories with the very same relative text: each means the file next to it
+                for d_ in ("src/sub", "src/sub/deep"):
+                    if not any(e["p"] == d_ + "/a" for e in spec):
+                        spec.append(F(d_ + "/a", r.choice([7, 300, 5000]), r.randrange(1, 1 << 30)))
+                for d_ in ("src", "src/sub", "src/sub/deep"):
+                    spec.append({"p": "%s/T%d" % (d_, j), "k": "l", "target": r.choice(["a", "a", "./a"]) if d_ != "src" else "a"})
+            elif cls == "file-rel":
                 spec.append({"p": nm, "k": "l", "target": up + "a"})
             elif cls == "file-abs":
                 spec.append({"p": nm, "k": "l", "target": "@ROOT@/src/b"})
